@@ -5,6 +5,11 @@ import json, os
 ROOT = os.path.dirname(os.path.dirname(os.path.abspath(__file__)))
 
 CHECKS = {
+ "C15": dict(
+  technique="runtime monitor: abstract model of independent growable tables checked after every operation of bounded-exhaustive and random operation histories + structural invariant hooks (block layout, stack heads, intern cache)",
+  text="Every history of length<=4 (6 thorough) over 9 operation kinds on SimpleGarnishData and on BasicGarnishData under 9 size/growth configurations (initial 0,1,2 x +1,+2,x2, default), with a full read-back of all data values, symbol names, instructions, jump entries, registers, value stack and frame chain plus the block-layout invariant after every single operation; every interning sequence of length 3 (4) over 15 constants including hash-stream alias pairs; random histories of 1500 (10000) operations.",
+  note="trusts the table model; storage settings are reached through a verif_hooks constructor because the crate does not export their types",
+  design="DESIGN.md §5 C15"),
  "C16": dict(
   technique="runtime monitor: reference-model oracle (insertion-ordered sequence + key map) over store API calls and Access/Apply instructions on built lists and concatenations",
   text="Every list of length<=3 (4 thorough) over 7 item kinds exhaustively, plus random lists up to 24 (64) items and concatenations with adversarial distinct symbol keys; on both stores the monitor reads length, every index inside and outside, iteration order, and looks up every present key and several absent keys, directly and through the Access/Apply instructions, comparing each answer with the sequence/key-map model and flagging any error.",
